@@ -82,19 +82,25 @@ var pkgEPs = map[string]epCall{
 			slog.Println(append([]any{m}, a...)...)
 		}
 	},
-	"PanicContext":   func(_ slog.Logger, c context.Context, _ int, _ int, m string, a []any) { slog.PanicContext(c, m, a...) },
-	"FatalContext":   func(_ slog.Logger, c context.Context, _ int, _ int, m string, a []any) { slog.FatalContext(c, m, a...) },
-	"ErrorContext":   func(_ slog.Logger, c context.Context, _ int, _ int, m string, a []any) { slog.ErrorContext(c, m, a...) },
-	"WarnContext":    func(_ slog.Logger, c context.Context, _ int, _ int, m string, a []any) { slog.WarnContext(c, m, a...) },
-	"InfoContext":    func(_ slog.Logger, c context.Context, _ int, _ int, m string, a []any) { slog.InfoContext(c, m, a...) },
-	"DebugContext":   func(_ slog.Logger, c context.Context, _ int, _ int, m string, a []any) { slog.DebugContext(c, m, a...) },
-	"TraceContext":   func(_ slog.Logger, c context.Context, _ int, _ int, m string, a []any) { slog.TraceContext(c, m, a...) },
-	"PrintContext":   func(_ slog.Logger, c context.Context, _ int, _ int, m string, a []any) { slog.PrintContext(c, m, a...) },
-	"PrintlnContext": func(_ slog.Logger, c context.Context, _ int, _ int, m string, a []any) { slog.PrintlnContext(c, m, a...) },
-	"OKContext":      func(_ slog.Logger, c context.Context, _ int, _ int, m string, a []any) { slog.OKContext(c, m, a...) },
-	"SuccessContext": func(_ slog.Logger, c context.Context, _ int, _ int, m string, a []any) { slog.SuccessContext(c, m, a...) },
-	"FailContext":    func(_ slog.Logger, c context.Context, _ int, _ int, m string, a []any) { slog.FailContext(c, m, a...) },
-	"VerboseContext": func(_ slog.Logger, c context.Context, _ int, _ int, m string, a []any) { slog.VerboseContext(c, m, a...) },
+	"PanicContext": func(_ slog.Logger, c context.Context, _ int, _ int, m string, a []any) { slog.PanicContext(c, m, a...) },
+	"FatalContext": func(_ slog.Logger, c context.Context, _ int, _ int, m string, a []any) { slog.FatalContext(c, m, a...) },
+	"ErrorContext": func(_ slog.Logger, c context.Context, _ int, _ int, m string, a []any) { slog.ErrorContext(c, m, a...) },
+	"WarnContext":  func(_ slog.Logger, c context.Context, _ int, _ int, m string, a []any) { slog.WarnContext(c, m, a...) },
+	"InfoContext":  func(_ slog.Logger, c context.Context, _ int, _ int, m string, a []any) { slog.InfoContext(c, m, a...) },
+	"DebugContext": func(_ slog.Logger, c context.Context, _ int, _ int, m string, a []any) { slog.DebugContext(c, m, a...) },
+	"TraceContext": func(_ slog.Logger, c context.Context, _ int, _ int, m string, a []any) { slog.TraceContext(c, m, a...) },
+	"PrintContext": func(_ slog.Logger, c context.Context, _ int, _ int, m string, a []any) { slog.PrintContext(c, m, a...) },
+	"PrintlnContext": func(_ slog.Logger, c context.Context, _ int, _ int, m string, a []any) {
+		slog.PrintlnContext(c, m, a...)
+	},
+	"OKContext": func(_ slog.Logger, c context.Context, _ int, _ int, m string, a []any) { slog.OKContext(c, m, a...) },
+	"SuccessContext": func(_ slog.Logger, c context.Context, _ int, _ int, m string, a []any) {
+		slog.SuccessContext(c, m, a...)
+	},
+	"FailContext": func(_ slog.Logger, c context.Context, _ int, _ int, m string, a []any) { slog.FailContext(c, m, a...) },
+	"VerboseContext": func(_ slog.Logger, c context.Context, _ int, _ int, m string, a []any) {
+		slog.VerboseContext(c, m, a...)
+	},
 }
 
 // fixedSeverity of the verb families (what the statement says each verb issues).
